@@ -978,19 +978,153 @@ func (x *Exec) copyBuiltin(st *State, args []*Value, rt types.Type, pos ssa.Inst
 }
 
 // ---------------------------------------------------------------------------
-// channel / goroutine events: sequential protocol view via ghost counters.
-// Each event kind on each syntactic channel expression bumps a ghost counter
-// named ev_<kind>_<chan> when such a ghost variable is declared.
+// Channel events: the sequential protocol view. For a channel held in a
+// variable or field named X the ghost variables (when declared)
+//   ev_send_X, ev_recv_X, ev_close_X  count the events,
+//   ev_val_X     holds the last value received (error/int channels),
+//   ev_bytes_X   sums the lengths of strings received, ev_closed_X records
+//                that a receive found the channel closed.
+// Closing a channel requires ev_close_X == 0 (closing twice panics).
 
-func (x *Exec) chanName(ch *Value) string { return "" }
-
-func (x *Exec) chanEvent(st *State, kind string, ch *Value, v *Value, pos ssa.Instruction) {
-	x.ghostEvent(st, kind, pos)
+func chanVarName(v ssa.Value) string {
+	switch c := v.(type) {
+	case *ssa.UnOp:
+		switch a := c.X.(type) {
+		case *ssa.Alloc:
+			return a.Comment
+		case *ssa.FreeVar:
+			return a.Name()
+		case *ssa.FieldAddr:
+			if st, ok := a.X.Type().Underlying().(*types.Pointer).Elem().Underlying().(*types.Struct); ok {
+				return st.Field(a.Field).Name()
+			}
+		}
+	case *ssa.Parameter:
+		return c.Name()
+	case *ssa.MakeChan:
+		if refs := c.Referrers(); refs != nil {
+			for _, r := range *refs {
+				if st, ok := r.(*ssa.Store); ok {
+					if al, ok := st.Addr.(*ssa.Alloc); ok {
+						return al.Comment
+					}
+				}
+			}
+		}
+	case *ssa.ChangeType:
+		return chanVarName(c.X)
+	}
+	return ""
 }
 
-func (x *Exec) chanRecvOk(st *State, ch, v, ok *Value, pos ssa.Instruction) {}
+func (x *Exec) bumpGhost(st *State, name string, cond string) {
+	gv, ok := st.ghost[name]
+	if !ok {
+		return
+	}
+	nt := app("+", x.term(gv), "1")
+	if cond != "" {
+		nt = app("ite", cond, nt, x.term(gv))
+	}
+	st.ghost[name] = &Value{T: x.def(st, "g_"+name, "Int", nt), Typ: gv.Typ, Sort: gv.Sort}
+}
+
+func (x *Exec) setGhost(st *State, name string, term string, cond string) {
+	gv, ok := st.ghost[name]
+	if !ok {
+		return
+	}
+	if cond != "" {
+		term = app("ite", cond, term, x.term(gv))
+	}
+	st.ghost[name] = &Value{T: x.def(st, "g_"+name, gv.Sort, term), Typ: gv.Typ, Sort: gv.Sort}
+}
+
+func (x *Exec) chanEventNamed(st *State, kind, name string, v *Value, okT string, cond string, pos ssa.Instruction) {
+	if name == "" {
+		return
+	}
+	switch kind {
+	case "close":
+		if gv, ok := st.ghost["ev_close_"+name]; ok {
+			x.safety(st, "closeclosed", eq(x.term(gv), "0"), pos)
+		}
+		x.bumpGhost(st, "ev_close_"+name, cond)
+	case "send":
+		x.bumpGhost(st, "ev_send_"+name, cond)
+		if v != nil && (v.T != "" || v.K != nil) {
+			if gv, ok := st.ghost["ev_sent_"+name]; ok && gv.Sort == "Int" {
+				x.setGhost(st, "ev_sent_"+name, x.term(v), cond)
+			}
+		}
+	case "recv":
+		c := cond
+		if okT != "" {
+			c = and(cond, okT)
+			if c == "true" {
+				c = ""
+			}
+			if gv, has := st.ghost["ev_closed_"+name]; has {
+				x.setGhost(st, "ev_closed_"+name, or(x.term(gv), not(okT)), cond)
+			}
+		}
+		x.bumpGhost(st, "ev_recv_"+name, c)
+		if v != nil && v.T != "" {
+			if gv, ok := st.ghost["ev_val_"+name]; ok && gv.Sort == "Int" && x.Sorts.SortOf(v.Typ) == "Int" {
+				x.setGhost(st, "ev_val_"+name, v.T, c)
+			}
+			if gv, ok := st.ghost["ev_bytes_"+name]; ok && isStringType(v.Typ) {
+				nt := app("+", x.term(gv), app("slen", v.T))
+				if c != "" {
+					nt = app("ite", c, nt, x.term(gv))
+				}
+				st.ghost["ev_bytes_"+name] = &Value{T: x.def(st, "g_ev_bytes_"+name, "Int", nt), Typ: gv.Typ, Sort: gv.Sort}
+			}
+		}
+	}
+}
+
+func (x *Exec) chanEvent(st *State, kind string, ch *Value, v *Value, pos ssa.Instruction) {
+	var cv ssa.Value
+	switch i := pos.(type) {
+	case *ssa.UnOp:
+		cv = i.X
+	case *ssa.Send:
+		cv = i.Chan
+	case *ssa.Call:
+		if len(i.Common().Args) > 0 {
+			cv = i.Common().Args[0]
+		}
+	case *ssa.Defer:
+		if len(i.Common().Args) > 0 {
+			cv = i.Common().Args[0]
+		}
+	}
+	if cv == nil {
+		return
+	}
+	if u, ok := pos.(*ssa.UnOp); ok && u.CommaOk {
+		return // handled by chanRecvOk, which knows the ok flag
+	}
+	x.chanEventNamed(st, kind, chanVarName(cv), v, "", "", pos)
+}
+
+func (x *Exec) chanRecvOk(st *State, ch, v, ok *Value, pos ssa.Instruction) {
+	u, isU := pos.(*ssa.UnOp)
+	if !isU {
+		return
+	}
+	// a value received from a closed channel is the zero value
+	st.assume(implies(not(ok.T), eq(x.term(v), x.Sorts.Zero(v.Typ))))
+	x.chanEventNamed(st, "recv", chanVarName(u.X), v, ok.T, "", pos)
+}
 
 func (x *Exec) chanSelectEvent(st *State, i int, idx *Value, kind string, ch, v *Value, pos ssa.Instruction) {
+	sel, ok := pos.(*ssa.Select)
+	if !ok || i >= len(sel.States) {
+		return
+	}
+	x.chanEventNamed(st, kind, chanVarName(sel.States[i].Chan), v, "", eq(idx.T, fmt.Sprint(i)), pos)
 }
 
 func (x *Exec) ghostEvent(st *State, kind string, pos ssa.Instruction) {}
